@@ -9,7 +9,7 @@ LEAN_MODULES = ["Properties.C16"]
 THEOREMS = ["EngineModel.Properties.C16." + t for t in [
     "C16_observers_pure", "C16_observer_answer", "C16_observers_pure_any_plan", "C16_repeat", "C16_frame",
     "C16_no_write_no_change", "C16_api_observer", "C16_api_history", "C16_api_answers", "C16_crates_v1", "C16_crates_v2",
-    "C16_tracks_v2", "C16_load_database_pure", "C16_database_exists_pure", "C16_engine_library_load_pure",
+    "C16_tracks_v2", "C16_tracks_v1", "C16_load_database_pure", "C16_database_exists_pure", "C16_engine_library_load_pure",
     "C16_create_or_load_existing_pure", "C16_dir_repeat", "C16_load_unguarded_counterexample",
     "C16_engine_library_load_unguarded_counterexample"]]
 ASSUMPTIONS = [
